@@ -319,6 +319,11 @@ def run_check(run, tier):
     verify_insert(run, tier)
     verify_feed(run, tier)
     lemmas(run, tier)
+    if tier == 'thorough':
+        out = native({'kind': 'conf_bisect', 'n': 20000, 'seed': run.seed})
+        run.bounded.append({'what': 'assumed contracts of bisect / list.insert sampled against CPython (not proved)', 'result': out})
+        if out.get('mismatches'):
+            run.engine_error('bisect/insert contract disagrees with CPython: %s' % out['mismatches'][:2])
     finish(run)
 
 
